@@ -38,6 +38,18 @@ namespace jsonpointer {
         part
     };
 
+    // RFC 6901, section 4: array-index = %x30 / ( %x31-39 *(%x30-39) ), leading zeros are not allowed
+    template <typename CharT>
+    bool to_array_index(const CharT* s, std::size_t length, std::size_t& index)
+    {
+        if (length > 1 && s[0] == '0')
+        {
+            return false;
+        }
+        auto result = jsoncons::dec_to_integer(s, length, index);
+        return result ? true : false;
+    }
+
     } // namespace detail
 
     template <typename CharT,typename Allocator=std::allocator<CharT>>
@@ -468,7 +480,7 @@ namespace jsonpointer {
                 return current;
             }
             std::size_t index{0};
-            auto result = jsoncons::dec_to_integer(buffer.data(), buffer.length(), index);
+            bool result = jsoncons::jsonpointer::detail::to_array_index(buffer.data(), buffer.length(), index);
             if (!result)
             {
                 ec = jsonpointer_errc::invalid_index;
@@ -509,7 +521,7 @@ namespace jsonpointer {
                 return current;
             }
             std::size_t index{0};
-            auto result = jsoncons::dec_to_integer(buffer.data(), buffer.length(), index);
+            bool result = jsoncons::jsonpointer::detail::to_array_index(buffer.data(), buffer.length(), index);
             if (!result)
             {
                 ec = jsonpointer_errc::invalid_index;
@@ -759,7 +771,7 @@ namespace jsonpointer {
             else
             {
                 std::size_t index{0};
-                auto result = jsoncons::dec_to_integer(buffer.data(), buffer.length(), index);
+                bool result = jsoncons::jsonpointer::detail::to_array_index(buffer.data(), buffer.length(), index);
                 if (!result)
                 {
                     ec = jsonpointer_errc::invalid_index;
@@ -900,7 +912,7 @@ namespace jsonpointer {
             else
             {
                 std::size_t index{0};
-                auto result = jsoncons::dec_to_integer(buffer.data(), buffer.length(), index);
+                bool result = jsoncons::jsonpointer::detail::to_array_index(buffer.data(), buffer.length(), index);
                 if (!result)
                 {
                     ec = jsonpointer_errc::invalid_index;
@@ -1045,7 +1057,7 @@ namespace jsonpointer {
             else
             {
                 std::size_t index{0};
-                auto result = jsoncons::dec_to_integer(buffer.data(), buffer.length(), index);
+                bool result = jsoncons::jsonpointer::detail::to_array_index(buffer.data(), buffer.length(), index);
                 if (!result)
                 {
                     ec = jsonpointer_errc::invalid_index;
@@ -1154,7 +1166,7 @@ namespace jsonpointer {
             else
             {
                 std::size_t index{};
-                auto result = jsoncons::dec_to_integer(buffer.data(), buffer.length(), index);
+                bool result = jsoncons::jsonpointer::detail::to_array_index(buffer.data(), buffer.length(), index);
                 if (!result)
                 {
                     ec = jsonpointer_errc::invalid_index;
